@@ -12,6 +12,7 @@ mod c09;
 mod c10;
 mod c12;
 mod c13;
+mod c14;
 mod c17;
 mod c18;
 
@@ -35,6 +36,7 @@ fn prop(id: &str) -> Prop {
         "C10" => Prop { gen: c10::gen, run: c10::run },
         "C18" => Prop { gen: c18::gen, run: c18::run },
         "C12" => Prop { gen: c12::gen, run: c12::run },
+        "C14" => Prop { gen: c14::gen, run: c14::run },
         "C13" => Prop { gen: c13::gen, run: c13::run },
         _ => { eprintln!("unknown property {}", id); std::process::exit(2) }
     }
